@@ -88,6 +88,14 @@ def transact_equations(ck, an, want: set):
                          f"marking_to_market({a}) in transact", construct=stmt_text(m))
         for s in exempt:
             ck.exempt("LIN:S2.ledger-equations", "if " + ast.unparse(s.test) + ": " + ast.unparse(s.body[0]), "documented float clean-up, bounded by epsilon contracts (GUARD abs(q) < _epsilon verified)")
+    if "equations" in want:
+        # the equations below describe the path that reaches the final re-mark: every call must take it
+        early = [n for n in walk_function(fa.f.node) if isinstance(n, (ast.Return, ast.Raise)) and not any(isinstance(p_, ast.ExceptHandler) for p_ in parents(n))]
+        for n in early:
+            ck.fail("PATHCOUNT", "S2.every-trade-is-booked", subj, fa.loc(n), f"transact can leave before booking the trade (`{stmt_text(n)[:60]}` under {[cmp_key(p_) for p_ in fa.syntactic_guards(n)]}): "
+                    "a trade already recorded by rebalance (with its commission) would not reach the ledgers", construct=stmt_text(enclosing_if(n) or n))
+        if not early:
+            ck.ok("PATHCOUNT", "S2.every-trade-is-booked", subj, fa.f.loc, "every call of transact reaches the ledger writes (no early return / raise)", construct="transact body")
     if len(mtm) < 2 or id(mtm[-1]) not in snaps:
         if "equations" in want and len(mtm) >= 2:
             ck.fail("LIN", "S2.ledger-equations", subj, fa.f.loc, "the final re-mark is not a plain statement; ledger state cannot be read off", construct="marking_to_market")
